@@ -82,7 +82,7 @@ def RulesGrid (pb : Problem) (g : Nat → Nat → Bool) : Prop :=
   (cellGraph.induce (whiteCells pb g)).IsTree ∧
   -- 3. no 2 × 2 block is entirely shaded
   (∀ y x, y + 1 < pb.height → x + 1 < pb.width →
-    ¬ (g y x = false ∧ g (y + 1) x = false ∧ g y (x + 1) = false ∧ g (y + 1) (x + 1) = false)) ∧
+    ¬ (g y x = false ∧ g y (x + 1) = false ∧ g (y + 1) x = false ∧ g (y + 1) (x + 1) = false)) ∧
   -- 4. S, G and the marked cells are unshaded
   (startCell pb ∈ whiteCells pb g ∧ goalCell pb ∈ whiteCells pb g ∧
     ∀ y, y < pb.height → ∀ x, x < pb.width → markAt pb y x ≠ 0 → g y x = true) ∧
